@@ -170,9 +170,14 @@ class TocFetcher:
         chan = packet.channel
         if (chan != 0):
             return
+        cmd = packet.data[0]
         payload = packet.data[1:]
 
         if (self.state == GET_TOC_INFO):
+            if cmd != (CMD_TOC_INFO_V2 if self._useV2 else CMD_TOC_INFO):
+                # Not the answer to the info request (late or duplicated
+                # reply to some other TOC request)
+                return
             if self._useV2:
                 [self.nbr_of_items, self._crc] = struct.unpack(
                     '<HI', payload[:6])
@@ -205,6 +210,8 @@ class TocFetcher:
                     self._toc_fetch_finished()
 
         elif (self.state == GET_TOC_ELEMENT):
+            if cmd != (CMD_TOC_ITEM_V2 if self._useV2 else CMD_TOC_ELEMENT):
+                return
             # Always add new element, but only request new if it's not the
             # last one.
             if self._useV2:
